@@ -348,3 +348,154 @@ Proof. exact all_libs_pins_ok. Qed.
    keys are distinct, i.e. [pins_nodup_b] holds for what the parser hands to module *)
 Theorem C11_module_pin_dict : forall l, NoDup (map fst (mk_pins l)).
 Proof. exact mk_pins_nodup. Qed.
+
+(** *** verilog.py from TEXT (Model/VerilogText.v: [VT.parse_verilog] = lark's contextual lexer + LALR parser on verilog.GRAMMAR
+    producing the raw tree, None = lark raises; [VT.module_args] = the child callbacks name / range / sigsel / concat / declaration /
+    namedpin / instantiation, i.e. what VerilogTransformer.module receives; [VT.circuits_of_text] = verilog.parse up to the circuits).
+    A rendering [VT.render l rest] writes the tokens [map snd l] each PRECEDED by ignored text ([VT.sep]: blanks, tabs, form feeds, "\n",
+    "\r\n", block comments, attributes, "//" comments with their newline); [VT.glue_ok]: the ignored text is well formed and what
+    follows a token does not prolong it; [VT.toks_ok m ts]: each token is one the scanner of its parser state returns. *)
+From KV Require Proofs.VerilogTextProofs.
+Module VT := KV.Model.VerilogText.
+Module VTP := KV.Proofs.VerilogTextProofs.
+
+(* white space / comment insensitivity: EVERY such way of writing a token stream is lexed to exactly that token stream *)
+Theorem C11_vtext_lex_render : forall l sf, VT.toks_ok VT.LTop (map snd l) = true -> VT.glue_ok l (VT.sep_text sf) = true -> VT.sep_ok sf = true ->
+  VT.lex (VT.render l (VT.sep_text sf)) = Some (map snd l).
+Proof. exact VTP.lex_render. Qed.
+(* ... so the parse result is a function of the token stream, and two ways of writing the same tokens are read alike *)
+Theorem C11_vtext_parse_render : forall l sf, VT.toks_ok VT.LTop (map snd l) = true -> VT.glue_ok l (VT.sep_text sf) = true -> VT.sep_ok sf = true ->
+  VT.parse_verilog (VT.render l (VT.sep_text sf)) = VT.parse_toks (map snd l).
+Proof. exact VTP.parse_render. Qed.
+Theorem C11_vtext_ignored_irrelevant : forall l1 sf1 l2 sf2, map snd l1 = map snd l2 -> VT.toks_ok VT.LTop (map snd l1) = true ->
+  VT.glue_ok l1 (VT.sep_text sf1) = true -> VT.sep_ok sf1 = true -> VT.glue_ok l2 (VT.sep_text sf2) = true -> VT.sep_ok sf2 = true ->
+  VT.parse_verilog (VT.render l1 (VT.sep_text sf1)) = VT.parse_verilog (VT.render l2 (VT.sep_text sf2)).
+Proof. exact VTP.ignored_irrelevant. Qed.
+(* the token language: a token stream is accepted iff it is the token stream of a tree (no empty name list in a declaration, no
+   empty concatenation), and then that tree is the result *)
+Theorem C11_vtext_token_language : forall ts l, VT.parse_toks ts = Some l <-> ts = VT.toks_tree l /\ VT.shape_tree l = true.
+Proof. exact VTP.parse_toks_iff. Qed.
+(* converse: the lexer accepts EXACTLY the renderings ([VT.rendering s ts]: s = ignored text of the eight forms of [VT.ign] in front of
+   every token of ts and at the end, every token one the scanner of its parser state returns, nothing after a token that prolongs it),
+   so the language of verilog.GRAMMAR under lark is exactly: renderings of token streams of trees *)
+Theorem C11_vtext_lex_iff : forall s ts, VT.lex s = Some ts <-> VT.rendering s ts.
+Proof. exact VTP.lex_iff. Qed.
+Theorem C11_vtext_language : forall s t, VT.parse_verilog s = Some t <-> VT.rendering s (VT.toks_tree t) /\ VT.shape_tree t = true.
+Proof. exact VTP.parse_verilog_iff. Qed.
+(* the token stream of a well-formed tree consists of tokens the scanners return, state by state (keywords only at statement start,
+   digits only inside a range, `module` only at top level) *)
+Theorem C11_vtext_tokens_of_tree : forall l, VT.wf_tree l = true -> VT.toks_ok VT.LTop (VT.toks_tree l) = true.
+Proof. exact VTP.toks_ok_tree. Qed.
+(* round trip: every well-formed tree, written in ANY way (arbitrary ignored text before every token and at the end), is read back *)
+Theorem C11_vtext_any_rendering : forall t l sf, VT.wf_tree t = true -> map snd l = VT.toks_tree t ->
+  VT.glue_ok l (VT.sep_text sf) = true -> VT.sep_ok sf = true -> VT.parse_verilog (VT.render l (VT.sep_text sf)) = Some t.
+Proof. exact VTP.parse_any_rendering. Qed.
+Theorem C11_vtext_parse_print : forall t, VT.wf_tree t = true -> VT.parse_verilog (VT.print_tree t) = Some t.
+Proof. exact VTP.parse_print. Qed.
+(* rejected: ignored text that does not end (open block comment / attribute, "//" comment without a newline before the end of the
+   text) after ANY token list *)
+Theorem C11_vtext_open_ignored_rejected : forall l rest, VT.toks_ok VT.LTop (map snd l) = true -> VT.glue_ok l rest = true ->
+  VT.skip_ign rest = None -> VT.parse_verilog (VT.render l rest) = None.
+Proof. exact VTP.open_ignored_rejected. Qed.
+Theorem C11_vtext_eof_line_comment_rejected : forall l sf b, VT.toks_ok VT.LTop (map snd l) = true ->
+  VT.glue_ok l (VT.sep_text sf ++ "//" ++ b)%string = true -> VT.sep_ok sf = true -> VT.no_newline b = true ->
+  VT.parse_verilog (VT.render l (VT.sep_text sf ++ "//" ++ b)%string) = None.
+Proof. exact VTP.eof_line_comment_rejected. Qed.
+(* FINDING: a netlist that ends in a line comment without line break is rejected; with the line break, or with a
+   block comment, it is read *)
+Theorem C11_vtext_eof_comment_witness :
+  VT.parse_verilog "module m (); endmodule // end"%string = None /\
+  VT.parse_verilog ("module m (); endmodule // end" ++ VT.nl1)%string = Some [VT.mkT "m" [] []]%string /\
+  VT.parse_verilog "module m (); endmodule /* end */"%string = Some [VT.mkT "m" [] []]%string.
+Proof. exact VTP.eof_comment_witness. Qed.
+(* lexer probes: keywords are keywords only at the beginning of a statement (`module` there is a name); `module` is a plain prefix at
+   top level; upper-case keywords are names; a sized constant takes every hexadecimal digit; an escaped name keeps its terminator;
+   lpar-star-rpar is not an attribute, slash-star-slash not a comment; a lone carriage return is rejected, a form feed ignored *)
+Theorem C11_vtext_lexer_probes :
+  (VT.parse_verilog "module input (wire); input input; module u (); endmodule" =
+    Some [VT.mkT "input" ["wire"] [VT.TDecl VT.DInput None ["input"]; VT.TInst "module" "u" []]] /\
+  VT.parse_verilog "modulem();endmodule" = Some [VT.mkT "m" [] []] /\
+  VT.parse_verilog "module m(); inputx a; endmodule" = None /\
+  VT.parse_verilog "module m(); INPUT a (); endmodule" = Some [VT.mkT "m" [] [VT.TInst "INPUT" "a" []]] /\
+  VT.parse_verilog "module m(); a b(1'b0f, 2'H3x); endmodule" = None /\
+  VT.parse_verilog ("module m(); a \b" ++ VT.chr VT.c_tab ++ "(\c[3] ); endmodule") =
+    Some [VT.mkT "m" [] [VT.TInst "a" ("\b" ++ VT.chr VT.c_tab) [VT.TPos (VT.TSel "\c[3] " None)]]] /\
+  VT.parse_verilog "module m(); a b(*)(); endmodule" = None /\ VT.parse_verilog "module m(); a b(*)*)(); endmodule" = Some [VT.mkT "m" [] [VT.TInst "a" "b" []]] /\
+  VT.parse_verilog "module m(); /*/ endmodule" = None /\ VT.parse_verilog "module m(); /***/ endmodule" = Some [VT.mkT "m" [] []] /\
+  VT.parse_verilog ("module m();" ++ VT.chr VT.c_cr ++ "endmodule") = None /\
+  VT.parse_verilog ("module m();" ++ VT.chr VT.c_cr ++ VT.nl1 ++ VT.chr VT.c_ff ++ "endmodule") = Some [VT.mkT "m" [] []])%string.
+Proof. exact VTP.lexer_probes. Qed.
+
+(* the pin dicts built from a text have distinct keys: hypothesis [pins_nodup_b] of the C11_module_ theorems is discharged *)
+Theorem C11_vtext_pin_dict : forall tm m, VT.module_args tm = Some m -> pins_nodup_b m = true.
+Proof. exact VTP.module_args_nodup. Qed.
+(* a connection .pn(sg) after which the same pin is not connected again is an entry of the dict of its Instantiation *)
+Theorem C11_vtext_pin_entry : forall ta pn sg tb raw v, VT.omap VT.pin_cb (ta ++ VT.TNamed pn (Some sg) :: tb) = Some raw -> VT.sig_cb sg = Some v ->
+  (forall pn' sg', In (VT.TNamed pn' (Some sg')) tb -> VT.name_cb pn' <> VT.name_cb pn) ->
+  In (PName (VT.name_cb pn), v) (mk_pins raw).
+Proof. exact VTP.text_pin_entry. Qed.
+(* verilog.parse, module by module *)
+Theorem C11_vtext_circuits : forall text lib bf cs, VT.circuits_of_text text lib bf = Some cs ->
+  exists tms ms, VT.parse_verilog text = Some tms /\
+    Forall2 (fun tm m => VT.module_args tm = Some m /\ pins_nodup_b m = true) tms ms /\
+    Forall2 (fun m c => elab_module m lib bf = Some c) ms cs.
+Proof. exact VTP.circuits_of_text_inv. Qed.
+(* the circuits do not depend on how the netlist is written (layout, comments, attributes) *)
+Theorem C11_vtext_circuits_of_rendering : forall t l sf lib bf, VT.wf_tree t = true -> map snd l = VT.toks_tree t ->
+  VT.glue_ok l (VT.sep_text sf) = true -> VT.sep_ok sf = true ->
+  VT.circuits_of_text (VT.render l (VT.sep_text sf)) lib bf =
+  match VT.omap VT.module_args t with Some ms => VT.omap (fun m => elab_module m lib bf) ms | None => None end.
+Proof. exact VTP.circuits_of_rendering. Qed.
+
+(* the C11_module_ theorems FROM TEXT: no hypothesis about the tree is left *)
+Theorem C11_text_module_consistent : forall text lib bf cs, lib_ok_b lib = true -> VT.circuits_of_text text lib bf = Some cs ->
+  Forall (fun c => CInv c /\ SingleDrv c) cs.
+Proof. exact VTP.text_module_consistent. Qed.
+Theorem C11_text_module_ports : forall text tms tm m lib bf c, lib_ok_b lib = true -> VT.parse_verilog text = Some tms -> In tm tms ->
+  VT.module_args tm = Some m -> elab_module m lib bf = Some c ->
+  forall nls, VE.port_name_lists (map VT.name_cb (VT.t_params tm)) (decls_of m) = Some nls -> NoDup (List.concat nls) ->
+  (forall n, In n (List.concat nls) -> In n (map fst (VE.io_items (decls_of m)))) ->
+  List.length (io c) = List.length (List.concat nls) /\
+  forall k name, nth_error (List.concat nls) k = Some name ->
+    exists n kd, nth_error (io c) k = Some (Some n) /\ In n (nodes c) /\ name_of c n = name /\
+                 kind_of c n = kind_str kd /\ dget name (cells c) = Some n /\ In (name, kd) (VE.io_items (decls_of m)).
+Proof. exact VTP.text_module_ports. Qed.
+(* a named pin connection as WRITTEN: .pn(sg) in the pin list of `ty nm ( .. )`, not connected again later in that list *)
+Theorem C11_text_module_pin_in : forall text tms tm m lib bf c, lib_ok_b lib = true -> VT.parse_verilog text = Some tms -> In tm tms ->
+  VT.module_args tm = Some m -> elab_module m lib bf = Some c ->
+  forall ty nm ta pn sg tb s idx,
+  In (VT.TInst ty nm (ta ++ VT.TNamed pn (Some sg) :: tb)) (VT.t_stmts tm) ->
+  (forall pn' sg', In (VT.TNamed pn' (Some sg')) tb -> VT.name_cb pn' <> VT.name_cb pn) ->
+  VT.sig_cb sg = Some (VE.SOne s) -> lib_pin lib (VT.name_cb ty) (PName (VT.name_cb pn)) = Some (idx, false) ->
+  exists n l d, dget (VT.name_cb nm) (cells c) = Some n /\ kind_of c n = VT.name_cb ty /\ in_at c n idx = Some l /\ In l (lines c) /\
+    l_rdr (lst c l) = Some n /\ l_rpin (lst c l) = idx /\ l_drv (lst c l) = Some d /\ is_fork (kind_of c d) = true /\
+    if bf then exists f l', dget (branch_name (name_of c f) (VT.name_cb nm) (VT.name_cb pn)) (forks c) = Some d /\ ins_of c d = [Some l'] /\
+                            In l' (lines c) /\ l_drv (lst c l') = Some f /\ l_rdr (lst c l') = Some d /\ SrcName m c f s
+    else SrcName m c d s.
+Proof. exact VTP.text_module_pin_in. Qed.
+Theorem C11_text_module_pin_out : forall text tms tm m lib bf c, lib_ok_b lib = true -> VT.parse_verilog text = Some tms -> In tm tms ->
+  VT.module_args tm = Some m -> elab_module m lib bf = Some c ->
+  forall ty nm ta pn sg tb s idx,
+  In (VT.TInst ty nm (ta ++ VT.TNamed pn (Some sg) :: tb)) (VT.t_stmts tm) ->
+  (forall pn' sg', In (VT.TNamed pn' (Some sg')) tb -> VT.name_cb pn' <> VT.name_cb pn) ->
+  VT.sig_cb sg = Some (VE.SOne s) -> lib_pin lib (VT.name_cb ty) (PName (VT.name_cb pn)) = Some (idx, true) ->
+  exists n l f s', out_sig_name (decls_of m) s = Some s' /\ dget (VT.name_cb nm) (cells c) = Some n /\ kind_of c n = VT.name_cb ty /\
+    out_at c n idx = Some l /\ In l (lines c) /\ l_drv (lst c l) = Some n /\ l_dpin (lst c l) = idx /\
+    l_rdr (lst c l) = Some f /\ dget s' (forks c) = Some f /\ ins_of c f = [Some l].
+Proof. exact VTP.text_module_pin_out. Qed.
+Theorem C11_text_module_assign : forall text tms tm m lib bf c, lib_ok_b lib = true -> VT.parse_verilog text = Some tms -> In tm tms ->
+  VT.module_args tm = Some m -> elab_module m lib bf = Some c ->
+  exists c3 k3, elab_assigns m lib = Some (c3, k3) /\ ext c3 c /\
+    forall ts, In ts (assign_pairs (decls_of m) (m_stmts m)) -> Resolved c ts \/ Unres c3 ts.
+Proof. exact VTP.text_module_assign. Qed.
+Theorem C11_text_module_outputs : forall text tms tm m lib bf c, lib_ok_b lib = true -> VT.parse_verilog text = Some tms -> In tm tms ->
+  VT.module_args tm = Some m -> elab_module m lib bf = Some c ->
+  forall nm, In (nm, VE.KOutput) (VE.io_items (decls_of m)) ->
+  dget nm (forks c) <> None \/ dget (nm ++ "[0]")%string (forks c) <> None -> OutPort c nm.
+Proof. exact VTP.text_module_outputs. Qed.
+(* the hypotheses are satisfiable: a text with the three comment forms, an escaped port \b[0] , a bus, a sized constant and two
+   instances is read, its callbacks do not raise, module builds a circuit with four io entries *)
+Theorem C11_vtext_example : exists tm m c, VT.parse_verilog VTP.ex_text = Some [tm] /\ VT.wf_tree [tm] = true /\ VT.module_args tm = Some m /\
+  lib_ok_b VTP.ex_lib2 = true /\ elab_module m VTP.ex_lib2 true = Some c /\ VT.circuits_of_text VTP.ex_text VTP.ex_lib2 true = Some [c] /\
+  VT.t_params tm = ["a"; "\b[0] "; "y"]%string /\ m_ports m = ["a"; "b[0]"; "y"]%string /\ List.length (io c) = 4 /\ ports_ok_b m = true.
+Proof. exact VTP.text_example. Qed.
